@@ -185,7 +185,7 @@ def run_core(prop, tier, seed, t0, replay_item=None):
     # ---- binding B: record executions the model did not choose, validate them with TLC
     tstats = {"traces": 0, "events": 0, "states": 0}
     if replay_item is None and prop in TRACE_PROPS:
-        n, length = (24, 40) if tier == "quick" else (400, 120)
+        n, length = (24, 40) if tier == "quick" else (160, 80)
         tstats = trace_part(rep, prop, runner, seed, n, length, tier)
     nontrivial = set()
     for it in items:
@@ -987,7 +987,7 @@ def run_sec(prop, tier, seed, t0, replay_item=None):
         items = []
         for i, (s_, e, c) in enumerate(combos):
             items.append({"id": "%s-%d-%d" % (prop, seed, i), "cfg": {"rs": rng.choice([1, 2, 3, 7, 20]), "comp": c, "enc": e, "sig": s_, "level": rng.choice(conc.LEVELS), "cache": rng.choice(conc.CACHES)},
-                          "mode": mode, "seed": rng.randrange(1 << 30), "flips": (70 if tier == "quick" else 0), "stride": (1 if tier == "quick" else 3)})
+                          "mode": mode, "seed": rng.randrange(1 << 30), "flips": (70 if tier == "quick" else 0), "stride": (1 if tier == "quick" else 5)})
     res, crashed = core.run_batches(runner, "sec", items, per_batch=1, timeout=3300)
     by_id = {it["id"]: it for it in items}
     done, checks_n, infra, kinds, samples = 0, 0, [], {}, []
@@ -1015,7 +1015,7 @@ def run_sec(prop, tier, seed, t0, replay_item=None):
             rep.violation("%s %s: %s" % (bid, f.get("call", ""), f["msg"]), {"kind": "sec", "prop": prop, "item": it, "findings": unknown[:10]})
     if infra and len(infra) > len(items) // 2 and not rep.violations:
         raise Infra("; ".join(infra[:4]))
-    rule = ("a small signed history (mkdir, writes, chmod, chown, chtimes, rename, remove) is written under each configuration; then (i) single bytes of the tape are altered (quick: ~70 spread positions plus every record's header/PAX/data regions; thorough: every third byte) and (ii) archives forged without the signing key are appended (plain member, embedded header without / with empty / non-base64 / non-packet / random signature, reused signature of another header, edited header with kept signature, signature by another key, swapped signatures); every header the indexer accepts must be one the untouched tape yields and every restore must return bytes signed under that name or fail; distinct = attack kinds"
+    rule = ("a small signed history (mkdir, writes, chmod, chown, chtimes, rename, remove) is written under each configuration; then (i) single bytes of the tape are altered (quick: ~70 spread positions plus every record's header/PAX/data regions; thorough: every fifth byte) and (ii) archives forged without the signing key are appended (plain member, embedded header without / with empty / non-base64 / non-packet / random signature, reused signature of another header, edited header with kept signature, signature by another key, swapped signatures); every header the indexer accepts must be one the untouched tape yields and every restore must return bytes signed under that name or fail; distinct = attack kinds"
             if prop == "C08" else
             "a small history with unique high-entropy markers in directory, file and renamed names, contents, uid/gid and timestamps is written under each encrypting configuration; the raw tape is searched for every marker and for STFS action keywords in raw, hex and three base64 alignments, outer tar headers are read without keys and must show only size and STFS.EmbeddedHeader, and an index rebuild and a fetch with a different private key must fail; distinct = check kinds")
     rep.coverage = {"states": max(1, mc["distinct"]), "transitions": max(1, mc["generated"]), "traces_validated_against_impl": done,
